@@ -14,7 +14,7 @@ int env_msg_live   = 0;
 int env_msg_allocs = 0;
 int env_msg_seq    = 0;
 int env_msg_fail_at = -1; /* C20: the n-th nni_msg_alloc/nni_msg_dup (0-based) fails with NNG_ENOMEM */
-int env_msg_failed  = 0;
+extern int env_msg_failed; /* env_alloc.c */
 
 int
 nni_msg_alloc(nni_msg **mp, size_t sz)
@@ -62,6 +62,11 @@ nni_msg_clone(nni_msg *m)
 int
 nni_msg_dup(nni_msg **dup, const nni_msg *src)
 {
+	if (env_msg_fail_at >= 0 && env_msg_allocs == env_msg_fail_at) {
+		env_msg_fail_at = -1;
+		env_msg_failed  = 1;
+		return (NNG_ENOMEM);
+	}
 	nni_msg *m = malloc(sizeof(*m));
 	ASSUME(m != NULL);
 	*m        = *src;
